@@ -33,7 +33,7 @@ ASSUMPTIONS = [
 TECHNIQUE = "property-based testing of an accept-or-reject dichotomy with a validity predicate on the materialised array, over a typed pool of constructor arguments"
 LEVEL_TEXT = "Exploration: tens of thousands of generated constructor argument combinations per run; each is either rejected with the documented error or checked element-wise."
 
-FLOATS = [0.0, -0.0, 1.0, -1.0, 0.5, 2.5, 1e-3, 1e3, 1e-12, 1e12, 1e-300, 1e300, -1e300, 5e-324, 2.2250738585072014e-308,
+FLOATS = [0.0, -0.0, 1.0, -1.0, 0.5, 2.5, 1e-3, 1e3, 1e-12, 1e12, 1e-300, 1e300, -1e300, 1e308, -1e308, 1.7e308, -1.7e308, 5e-324, 2.2250738585072014e-308,
           float("nan"), float("inf"), float("-inf"), 3.141592653589793, 100.0, 1e-9, 123456.789]
 INTS = [0, 1, -1, 2, 5, 10, -7, 100, 2**31, 2**53, -(2**53), 2**63, 2**70, -(2**64), True, False]
 
@@ -44,7 +44,7 @@ def num():
         st.integers(-10**6, 10**6).map(lambda x: ["float", repr(x / 1000.0)]),
         st.sampled_from(INTS).map(lambda x: ["bool" if isinstance(x, bool) else "int", repr(x)]),
         st.integers(-1000, 1000).map(lambda x: ["int", repr(x)]),
-        st.sampled_from(FLOATS[:12]).map(lambda x: ["np.float64", repr(x)]),
+        st.sampled_from(FLOATS[:17]).map(lambda x: ["np.float64", repr(x)]),
         st.sampled_from([0, 1, 7]).map(lambda x: ["np.int64", repr(x)]),
         st.sampled_from([0.5, 2.0]).map(lambda x: ["jax", repr(x)]),
     )
